@@ -7,8 +7,6 @@ package main
 // first kin-openapi function on its stack the signature.
 
 import (
-	"net/url"
-	"syscall"
 	"bytes"
 	"context"
 	"encoding/json"
@@ -16,10 +14,12 @@ import (
 	"io"
 	"net/http"
 	"net/http/httptest"
+	"net/url"
 	"os"
 	"regexp"
 	"runtime/debug"
 	"strings"
+	"syscall"
 	"time"
 
 	"github.com/getkin/kin-openapi/openapi3"
@@ -30,17 +30,17 @@ import (
 )
 
 type C10Req struct {
-	Method  string              `json:"method"`
-	Target  string              `json:"target"` // request target (path + query), raw
-	Header  map[string][]string `json:"header,omitempty"`
-	Body    string              `json:"body,omitempty"`
-	Status  int                 `json:"status"`
-	RHeader map[string][]string `json:"response_header,omitempty"`
-	RBody   string              `json:"response_body,omitempty"`
-	Multi   bool                `json:"multi_error,omitempty"`
-	Strict  bool                `json:"include_response_status,omitempty"`
-	ExclBody bool               `json:"exclude_bodies,omitempty"`
-	RNoBody  bool               `json:"response_without_body,omitempty"` // ResponseValidationInput.Body is nil (a response that has no body at all)
+	Method   string              `json:"method"`
+	Target   string              `json:"target"` // request target (path + query), raw
+	Header   map[string][]string `json:"header,omitempty"`
+	Body     string              `json:"body,omitempty"`
+	Status   int                 `json:"status"`
+	RHeader  map[string][]string `json:"response_header,omitempty"`
+	RBody    string              `json:"response_body,omitempty"`
+	Multi    bool                `json:"multi_error,omitempty"`
+	Strict   bool                `json:"include_response_status,omitempty"`
+	ExclBody bool                `json:"exclude_bodies,omitempty"`
+	RNoBody  bool                `json:"response_without_body,omitempty"` // ResponseValidationInput.Body is nil (a response that has no body at all)
 }
 type C10Case struct {
 	Doc  map[string]any `json:"doc"`
